@@ -15,7 +15,7 @@ from __future__ import annotations
 
 import ast
 
-from ..model import Program, call_name, is_self_attr, norm, walk_no_nested
+from ..model import Program, call_name, is_self_attr, norm, walk_no_nested, execution_condition
 from ..poly import Rat, eval_expr
 from ..report import AnalysisError
 
@@ -541,6 +541,15 @@ def rule_r4(rep, program: Program):
             head = txt.split(".")[0].split("[")[0]
         return txt
 
+    # the write-back happens after every parallel stage that returned results: the only admissible conditions are
+    # those of the surrounding result collection (an empty / failed gather), never an option of the stage
+    for s in stores:
+        conds = execution_condition(f.node, s, stop_at=(ast.FunctionDef,))
+        extra = [(t, tr) for t, tr in conds if any(isinstance(n, ast.Name) and n.id in ("common_kwargs", "adapters", "kwargs", "trace_funcs") or (isinstance(n, ast.Constant) and n.value in ("adapters", "trace_funcs")) for n in ast.walk(t))]
+        r.inst({"write-back runs under": [("" if tr else "not ") + norm(t)[:50] for t, tr in conds]})
+        if extra:
+            txt = " and ".join(("" if tr else "not ") + f"({norm(t)})" for t, tr in extra)
+            r.violate(PROP, f"_sample_chains_parallel:restore-conditional:{txt[:50]}", f"the generator states are written back only when `{txt}`: after a stage for which this does not hold (e.g. a warm-up stage without adapters) the parent's generators are not advanced, so the next stage replays the same random streams and parallel runs differ from sequential ones", node=s, file=f.file)
     for s in stores:
         tgt = expand(norm(s.targets[0]))
         if '["rng"]' not in tgt.replace("'", '"'):
